@@ -347,11 +347,30 @@ pub fn http_conn(r: &mut Rng, ep: ((IpAddr, u16), (IpAddr, u16))) -> Conn {
     Conn { client: c, server: s, segs, kind }
 }
 
-/// stable sort by raw sequence number + concatenation (what `get_full_data` does)
-fn full_data(parts: &[(u32, Vec<u8>)]) -> Vec<u8> {
-    let mut v: Vec<&(u32, Vec<u8>)> = parts.iter().collect();
-    v.sort_by_key(|p| p.0);
-    v.iter().flat_map(|p| p.1.iter().copied()).collect()
+/// What `TcpFlow::get_full_data` returns (fix C09-1): segments ordered by their offset from ISN+1
+/// modulo 2^32 (stable), the gap-free run from the first byte, bytes already present skipped.
+/// Without an ISN the lowest stored sequence number is the base.
+pub fn full_data(isn: Option<u32>, parts: &[(u32, Vec<u8>)]) -> Vec<u8> {
+    let base = match isn {
+        Some(i) => i.wrapping_add(1),
+        None => parts.iter().map(|p| p.0).min().unwrap_or(0),
+    };
+    let mut v: Vec<&(u32, Vec<u8>)> = parts.iter().filter(|p| !p.1.is_empty()).collect();
+    v.sort_by_key(|p| p.0.wrapping_sub(base));
+    let mut out: Vec<u8> = vec![];
+    let mut next: u32 = 0;
+    for p in v {
+        let off = p.0.wrapping_sub(base);
+        if off > next {
+            break;
+        }
+        let have = next.wrapping_sub(off) as usize;
+        if have < p.1.len() {
+            out.extend_from_slice(&p.1[have..]);
+            next = next.wrapping_add((p.1.len() - have) as u32);
+        }
+    }
+    out
 }
 
 /// Oracle: request/response parse results (fresh processors) for every buffer a direction can hold.
@@ -368,25 +387,32 @@ fn http_oracle(conn: &Conn) -> Vec<(Vec<u8>, String, String)> {
         out.push((buf, q, a));
     };
     // the flow may have been opened by any SYN-flagged segment of the connection (first one wins while
-    // it lives); enumerate both directions as potential "client" and every accumulation prefix
+    // it lives); enumerate both directions as potential "client" and every accumulation prefix. The
+    // server's ISN is the sequence number of the first SYN-flagged segment of the other direction
+    // seen while the flow lives.
     for first in 0..conn.segs.len() {
         if conn.segs[first].flags & SYN == 0 {
             continue;
         }
         let opener = conn.segs[first].src;
-        let mut cl: Vec<(u32, Vec<u8>)> = vec![(conn.segs[first].seq, conn.segs[first].payload.clone())];
+        let cisn = conn.segs[first].seq;
+        let mut sisn: Option<u32> = None;
+        let mut cl: Vec<(u32, Vec<u8>)> = vec![(cisn.wrapping_add(1), conn.segs[first].payload.clone())];
         let mut sv: Vec<(u32, Vec<u8>)> = vec![];
-        add(full_data(&cl), &mut out);
+        add(full_data(Some(cisn), &cl), &mut out);
         for s in &conn.segs[first + 1..] {
+            if s.src != opener && s.flags & SYN != 0 && sisn.is_none() {
+                sisn = Some(s.seq);
+            }
             if s.payload.is_empty() {
                 continue;
             }
             if s.src == opener {
                 cl.push((s.seq, s.payload.clone()));
-                add(full_data(&cl), &mut out);
+                add(full_data(Some(cisn), &cl), &mut out);
             } else {
                 sv.push((s.seq, s.payload.clone()));
-                add(full_data(&sv), &mut out);
+                add(full_data(sisn, &sv), &mut out);
             }
         }
     }
